@@ -38,7 +38,9 @@ def discharge(res, tier, pid, concretise=None, replay=None, known=None, bounded_
             'symexec_seconds': round(res.seconds, 3), 'obligations': []}
     if res.undecided:
         unit['undecided'] = res.undecided
-        return unit
+        if not res.obligations:
+            return unit
+        # some paths left the modelled subset: the function as a whole is undecided, but what the other paths prove or refute stands
     timeout = solve.tier_timeout(tier)
     by_name = {}
     vcdir = os.path.join(os.environ.get('PYVC_EVIDENCE_DIR') or os.path.join(VERIF, 'evidence'), 'vc', pid)
